@@ -198,6 +198,16 @@ func (r *Rtmp2RtspRemuxer) doAnalyze() {
 			}
 		}
 
+		// g711、opus没有seq header，如果metadata里只有音频编码类型、没有采样率，那么使用默认采样率
+		if r.audioSampleRate < 0 {
+			switch r.audioPt {
+			case base.AvPacketPtG711A, base.AvPacketPtG711U:
+				r.audioSampleRate = pcmDefaultSampleRate
+			case base.AvPacketPtOpus:
+				r.audioSampleRate = opusDefaultSampleRate
+			}
+		}
+
 		// 回调sdp
 		videoInfo := sdp.VideoInfo{
 			VideoPt: r.videoPt,
